@@ -15,7 +15,7 @@ func init() {
 	register(&Property{
 		ID:          "C10",
 		Engines:     []string{"cfg", "lockset"},
-		Explanation: "HTTP exchanges end to end: ordering, exactly-once and isolation over histories are not statically decidable and rest on C05 (serialisation), C09 (framing) and C11 (buffer ownership). Decided here is the glue specific to C10: the job handed to the connection's executor for each request is handler-then-flush and nothing else, and on the !ok edge the request is released and no handler runs (O1); flushResponse closes on the Close edge only after the flush, immediately on a flush error, renews the keep-alive deadline otherwise, and releases request and response exactly once on every path (O2); the client appends its handler under the mutex before the request is written, pops index 0 under the mutex, and on close invokes every pending handler and clears the list in the same critical section (O3); the TLS and non-TLS listener dispatch have the same IOMod case set and hand each listener to the add-function of the matching kind (O4). The TLS drain loops stop only on a zero count (O6). The answered handler is popped before anything that fails the rest (O8); whole-object reset before Put (O9); RetainHTTPBody travels with every release (O10); the close after a Connection: close response must drain (O7, open finding).",
+		Explanation: "HTTP exchanges end to end: ordering, exactly-once and isolation over histories are not statically decidable and rest on C05 (serialisation), C09 (framing) and C11 (buffer ownership). Decided here is the glue specific to C10: the job handed to the connection's executor for each request is handler-then-flush and nothing else, and on the !ok edge the request is released and no handler runs (O1); flushResponse closes on the Close edge only after the flush, immediately on a flush error, renews the keep-alive deadline otherwise, and releases request and response exactly once on every path (O2); the client appends its handler under the mutex before the request is written, pops index 0 under the mutex, and on close invokes every pending handler and clears the list in the same critical section (O3); the TLS and non-TLS listener dispatch have the same IOMod case set and hand each listener to the add-function of the matching kind (O4). The TLS drain loops stop only on a zero count (O6). The answered handler is popped before anything that fails the rest (O8); whole-object reset before Put (O9); RetainHTTPBody travels with every release (O10); the close after a Connection: close response must drain (O7, open finding). Interim 1xx responses are neither delivered nor consume a per-request record (O11).",
 		NotCovered:  "everything quantified over histories / concurrency; net/http interoperability",
 		Run:         runC10,
 	})
